@@ -218,6 +218,7 @@ func checkC15(c *Ctx) {
 			every = 20
 		}
 		c.replaySemCLI(c.lastFile, o, every, 10*time.Second)
+		c.checkSeparators(c.lastFile)
 	}
 	c.cov("exhaustive", false)
 	c.cov("rule", "FamPrint: each value of the pool (boundary and random doubles, powers of ten around the exponent switch, 15-17 digit values, +-Inf, NaN, int64 results of bitwise operators, strings over Latin, Bangla letters, combining marks, every Bangla code point with a canonical decomposition and the sequences composing to them, nil, booleans) printed alone, spliced by + on both sides, inside arrays/objects (nested), after index/property stores, through a parameter and a built-in; numbers are checked by relation (denotes exactly the value, shortest digits, integers below 10^6 plain), strings exactly (NFC), each print ends in exactly one newline; in-process and through the executable")
@@ -416,4 +417,60 @@ func (c *Ctx) corruptionControls(name string, runs []*TraceRun) {
 	if rejected != 3 {
 		c.infra("trace validation does not bind: %d of 3 corrupted traces of %s were accepted", 3-rejected, pick.key)
 	}
+}
+
+// checkSeparators: the delimiters of printed arrays are free but uniform.  The "seps" program of FamPrint prints [], ["a"]
+// and ["a","b"] first; from those three lines the opening, closing and separating text are learned, and every later line
+// (arrays of strings with empty strings in every position, nested) is then determined character by character.
+func (c *Ctx) checkSeparators(path string) {
+	forEachLine(path, func(line []byte) error {
+		var rec SemRec
+		if json.Unmarshal(line, &rec) != nil || !strings.HasPrefix(rec.Key, "seps:") || rec.Status != "done" {
+			return nil
+		}
+		src, _ := Render(rec.Toks, nil)
+		cases := make(chan *Case, 1)
+		cases <- &Case{ID: 1, Mode: "run", Src: src, Fuel: 100000}
+		close(cases)
+		c.Pool.Run(cases, func(cs *Case, r *Result) {
+			lines := strings.Split(strings.TrimSuffix(r.Out, "\n"), "\n")
+			fail := func(what, detail string) {
+				c.violation("C15|print|separators|"+what, rec.Key, map[string]interface{}{"mode": "run", "src": src, "detail": detail, "observed": map[string]interface{}{"out": r.Out, "err": r.Err}})
+			}
+			if r.Panic != "" || r.Crash != "" || len(lines) != len(rec.Out) {
+				fail("line-count", fmt.Sprintf("%d lines expected, got %q", len(rec.Out), clip(r.Out, 300)))
+				return
+			}
+			// line 0 = O C ; line 1 = O a C ; line 2 = O a S b C
+			i := strings.Index(lines[1], "a")
+			if i < 0 {
+				fail("learning", "the one-element array does not show its element: "+lines[1])
+				return
+			}
+			open, clos := lines[1][:i], lines[1][i+1:]
+			if lines[0] != open+clos || !strings.HasPrefix(lines[2], open+"a") || !strings.HasSuffix(lines[2], "b"+clos) || len(lines[2]) < len(open)+len(clos)+2 {
+				fail("learning", fmt.Sprintf("opening / closing text differ between %q, %q and %q", lines[0], lines[1], lines[2]))
+				return
+			}
+			sep := lines[2][len(open)+1 : len(lines[2])-len(clos)-1]
+			var text func(v *XVal) string
+			text = func(v *XVal) string {
+				if v.T == "str" {
+					return intsToString(v.S) // the specification's snapshot is NFC already
+				}
+				parts := make([]string, len(v.E))
+				for k := range v.E {
+					parts[k] = text(&v.E[k])
+				}
+				return open + strings.Join(parts, sep) + clos
+			}
+			for k := 3; k < len(rec.Out); k++ {
+				if want := text(&rec.Out[k].V); lines[k] != want {
+					fail("not-uniform", fmt.Sprintf("output line %d is %q; with the delimiters %q %q %q shown by the first three lines it must be %q", k+1, lines[k], open, sep, clos, want))
+					return
+				}
+			}
+		})
+		return nil
+	})
 }
